@@ -386,3 +386,25 @@ CHECKS["C07"] = dict(
         level_note="Trusts the reference interpreter's reading of the SMF specification and of the statement's same-tick rules.",
     ),
 )
+
+CHECKS["C08"] = dict(
+    harnesses={"pbt": dict(src="c08_seek.cpp", cfg="asan", kind="rc")},
+    quick=[dict(name="pbt", harness="pbt", workers=8, args=["--n", "4000"])],
+    thorough=[dict(name="pbt", harness="pbt", workers=16, args=["--n", "40000"], timeout=10800)],
+    rule="rapidcheck: generated SMF (as C07, plus RPN/NRPN data entry, pedals, portamento, reset-all-controllers) and a history: play to 0/30/60/95/100 % of the song, then 1-4 seeks to "
+         "targets strictly between distinct event times (forward and backward), negative targets and targets beyond the end. Instance A seeks; twin B rewinds and plays linearly to the same "
+         "time. After each seek: reported position == target, no note sounding (pending 30 ms percussion releases excepted), 21 per-channel controller fields + synth mode + master volume "
+         "equal the twin's; afterwards both are played to the end and the raw-event streams (identity and song time) must be equal, and equal to the reference interpreter's list of file "
+         "events later than the target. Non-trivial = a target inside the song with notes sounding at the moment of the seek; distinct by FNV-64 of the case.",
+    assumptions=[
+        "looping is off; targets closer than 2 us to an event time are skipped (the statement says 'between event times')",
+        "the twin executes the same history (statement: seeking equals playing linearly from the start), so programs/banks that a controller-state reset does not touch are compared like everything else",
+    ],
+    min_nontrivial={"quick": 300, "thorough": 3000},
+    manifest=dict(
+        technique="differential property testing: seek vs rewind-and-play twin on generated SMF histories, plus reference-interpreter check of the post-seek event stream",
+        level_text="Seek is compared with its definition (linear playback to the same time) on a twin instance for position, controller state and the complete following event stream; "
+                   "the stream is additionally checked against the independent interpreter's event times.",
+        level_note="Trusts the twin mechanism (both run in one process) and the reference tempo arithmetic.",
+    ),
+)
